@@ -18,7 +18,8 @@ RULE = ('bounded-exhaustive: for every ruleset of a small on-disk family x {skip
         'status layer: the real keypress()/StatusReport body is run after every guess position under every combination of 0/1/2 days, hours, minutes, seconds on the session '
         'clock (fresh and resumed sessions, status / help / quit requests) and stdout must stay the guess stream; '
         'non-trivial = N strictly inside a pre-terminal with >= 2 guesses or inside a Markov level, or a status request that printed a report')
-ASSUMPTIONS = ['only valid configurations are quantified over (well-formed ruleset, N >= 1); messages printed to stdout on error paths are out of scope',
+ASSUMPTIONS = ['queue bound: on one ruleset of eight equally probable single-guess structures every -n run is repeated with PcfgQueue.max_queue_size (initialised to 50000 "for memory management" and not used by today\'s code) set to 1, 2, 3, 5 by the driver - a bound on the queue may drop entries that can no longer be reached, it must not change the first N lines',
+               'only valid configurations are quantified over (well-formed ruleset, N >= 1); messages printed to stdout on error paths are out of scope',
                'honeywords mode (unseeded) is checked for line count and language membership only; random_walk additionally for the prefix property']
 
 OMEN_B = {'ngram': 2, 'alphabet': ['a', 'b', 'c'], 'ip': {'a': 0, 'b': 1, 'c': 2}, 'ep': {},
@@ -28,6 +29,9 @@ OMEN_A = dict(R.DEFAULT_OMEN, keyspace={1: 3, 2: 3, 3: 2}, omen_prob=[(1, .125),
 # levels of equal probability form ONE Markov pre-terminal: the limit has to be carried from level to level inside it
 OMEN_T = dict(R.DEFAULT_OMEN, keyspace={1: 3, 2: 3, 3: 2}, omen_prob=[(1, .125), (2, .125), (3, .03125)])
 OMEN_0 = dict(OMEN_B, omen_prob=[(1, .125), (2, 0.0), (3, 0.0)])
+
+
+FLAT_SPEC = 10      # index of the ruleset with eight equally probable single-guess structures
 
 
 def specs(tier):
@@ -46,6 +50,8 @@ def specs(tier):
         (tie, [('A2D1', .6), ('A1A2', .4)], OMEN_A),  # mask groups of 4 and 2 equally probable masks, not in last position
         (t0, [('M', .5), ('A1D1', .5)], OMEN_T),
         (t0, [('D2', .5), ('M', .5)], OMEN_0),
+        # many single-guess pre-terminals of one probability: whatever the queue does to bound its memory, the order among them must not depend on -n
+        (t0, [(st, 1 / 8) for st in ('D2', 'K4', 'X1', 'D2K4', 'K4D2', 'D2X1', 'X1K4', 'K4X1')], OMEN_A),
     ]
     if tier == 'thorough':
         cands += [
@@ -137,11 +143,14 @@ def run_fresh(shard, tier, acc):
             return
         ref = [l for l in full.stdout if l in lang]
     # boundaries of pre-terminals in the reference stream, to classify N
-    for N in range(1, nmax + 1):
+    caps = [None]
+    if mode == 'true_prob_order' and i == FLAT_SPEC and not sb and not sc:
+        caps = [None, 1, 2, 3, 5]       # PcfgQueue.max_queue_size scaled down: a bound on the queue may drop entries, never reorder the first N
+    for N, cap in itertools.product(range(1, nmax + 1), caps):
         S.clear_session(td)
-        r = S.run_guesser(td, base_argv + ['-n', str(N)])
+        r = S.run_guesser(td, base_argv + ['-n', str(N)], queue_cap=cap)
         acc.evals += 1
-        c = dict(case, N=N)
+        c = dict(case, N=N, queue_cap=cap)
         if r.exc:
             acc.fail(c, '-n %d raised %s' % (N, r.exc.strip().splitlines()[-1]), 'raise')
             continue
@@ -242,6 +251,6 @@ def replay(case):
     else:
         run_resume(('resume', case['spec_index'], case['j'], 10 ** 6), tier, acc)
     for f in acc.failures:
-        if f['case'].get('N') == case.get('N') and f['case'].get('j') == case.get('j'):
+        if f['case'].get('N') == case.get('N') and f['case'].get('j') == case.get('j') and f['case'].get('queue_cap') == case.get('queue_cap'):
             return f['msg']
     return None
